@@ -160,7 +160,13 @@ def as_matrix(vectorizables, length=None, return_template=False, verbose=False):
     # 1-based as we have the template vector set already
     i = 0
     for i, sample in enumerate(vectorizables, 1):
-        data[i] = sample.as_vector()
+        vector = sample.as_vector()
+        if not np.can_cast(vector.dtype, data.dtype, casting="same_kind"):
+            # the template only fixes the dtype of the matrix as long as the
+            # later samples fit into it: widen (e.g. an integer template
+            # followed by float samples) rather than silently truncate
+            data = data.astype(np.promote_types(data.dtype, vector.dtype))
+        data[i] = vector
 
     # we have exhausted the iterable, but did we get enough items?
     if i != length - 1:  # -1
